@@ -494,7 +494,13 @@ def check_atom_route(ctx, spec):
     # the neutron record itself, duplicated (copy / deepcopy / pickle round trip), answers like the original
     import copy
     import pickle
+    import sys
     for how, dup in (("copy", copy.copy), ("deepcopy", copy.deepcopy), ("pickle", lambda x: pickle.loads(pickle.dumps(x)))):
+        if how == "pickle" and type(atom.neutron) is not getattr(sys.modules.get("periodictable.nsf"), "Neutron", None):
+            # the module was re-executed after the record was made (pbt/ambient.py 'reload'): pickling an instance of
+            # the previous class object fails by Python's own rules, not the library's (a false alarm at seed 7)
+            ctx.count("record-pickle:skipped-after-module-reload")
+            continue
         try:
             rec = dup(atom.neutron)
         except Exception as e:  # noqa
